@@ -159,7 +159,7 @@ static std::string run_case(const toks_t& t0)
 {
   // <op> <abi> <kind> <v>   (ops of the wide configuration carry a 'w' prefix)
   toks_t t = t0;
-  if (!t.empty() && t[0].size() > 1 && t[0][0] == 'w') t[0] = t[0].substr(1);
+  if (!t.empty() && t[0].size() > 1 && (t[0][0] == 'w' || t[0][0] == 'x')) t[0] = t[0].substr(1);
   std::string out = "HARNESS-ERROR unknown";
   if (t.size() < 3) return out;
   sandbox.get_sandbox_impl()->bump = 16;
